@@ -1492,10 +1492,12 @@ macro_rules! core_ops3_impl {
                         let mut mat: MatZnx<Vec<u8>> = MatZnx::alloc(n, rows, cols_in, cols_out, size_key);
                         mat.fill_uniform(sh.b_key as usize, &mut src(sh.seed, 2));
                         let mut pm = m.vmp_pmat_alloc(rows, cols_in, cols_out, size_key);
-                        let mut x: VecZnx<Vec<u8>> = VecZnx::alloc(n, cols_in, size_in);
+                        // the vector may have fewer columns than the matrix has input columns (the product pads it)
+                        let a_cols = if (sh.seed >> 36) % 2 == 0 { cols_in } else { 1 + ((sh.seed >> 37) as usize % cols_in) };
+                        let mut x: VecZnx<Vec<u8>> = VecZnx::alloc(n, a_cols, size_in);
                         x.fill_uniform(sh.b_in as usize, &mut src(sh.seed, 6));
-                        let mut xd = m.vec_znx_dft_alloc(cols_in, size_in);
-                        for i in 0..cols_in {
+                        let mut xd = m.vec_znx_dft_alloc(a_cols, size_in);
+                        for i in 0..a_cols {
                             m.vec_znx_dft_apply(1, 0, &mut xd, i, &x, i);
                         }
                         let mut res = m.vec_znx_dft_alloc(cols_out, size_res);
